@@ -241,8 +241,9 @@ theorem parseLines_cases (ls : List Str) : (∃ r, parseLines ls = .ok r) ∨ pa
         · exact Or.inr rfl
     · exact Or.inr rfl
 
-theorem expand_not_diverged (fs : Files) (fuel : Nat) (ss : List Stmt) : expand fs fuel ss ≠ .diverged := by
-  induction fuel generalizing ss with
+theorem expand_not_diverged (fs : Files) (fuel : Nat) (inc : List Str) (ss : List Stmt) :
+    expand fs fuel inc ss ≠ .diverged := by
+  induction fuel generalizing inc ss with
   | zero => simp [expand]
   | succ fuel ih =>
     rw [expand]
@@ -253,22 +254,24 @@ theorem expand_not_diverged (fs : Files) (fuel : Nat) (ss : List Stmt) : expand 
       split
       · split
         · simp
-        · rename_i lines _
-          rcases parseLines_cases lines with ⟨r, h⟩ | h <;> rw [h]
-          · dsimp only
-            cases he : expand fs fuel r with
-            | ok e =>
-              dsimp only
-              cases hg : expand.go fs fuel rest with
-              | ok r => simp
+        · split
+          · simp
+          · rename_i lines _
+            rcases parseLines_cases lines with ⟨r, h⟩ | h <;> rw [h]
+            · dsimp only
+              cases he : expand fs fuel (inc ++ [s.operand.text]) r with
+              | ok e =>
+                dsimp only
+                cases hg : expand.go fs fuel inc rest with
+                | ok r => simp
+                | diag => simp
+                | internal => simp
+                | diverged => exact absurd hg ihr
               | diag => simp
               | internal => simp
-              | diverged => exact absurd hg ihr
-            | diag => simp
-            | internal => simp
-            | diverged => exact absurd he (ih _)
-          · simp
-      · cases hg : expand.go fs fuel rest with
+              | diverged => exact absurd he (ih _ _)
+            · simp
+      · cases hg : expand.go fs fuel inc rest with
         | ok r => simp
         | diag => simp
         | internal => simp
